@@ -68,7 +68,7 @@ func inlineSamePkg(f *flow.Func, except ...types.Object) func(*ast.CallExpr, *ty
 		if g := cache[fd]; g != nil {
 			return g
 		}
-		g := flow.NewFunc(f.Pkg, fd)
+		g := funcOf(f.Pkg, fd)
 		cache[fd] = g
 		return g
 	}
@@ -101,7 +101,7 @@ func reach(f *flow.Func, depth int) []*flow.Func {
 					return true
 				}
 				seen[fd.Body] = true
-				h := flow.NewFunc(g.Pkg, fd)
+				h := funcOf(g.Pkg, fd)
 				out = append(out, h)
 				next = append(next, h)
 				return true
@@ -198,4 +198,22 @@ func reachContains(g *flow.Func, depth int, pred func(h *flow.Func, n ast.Node) 
 		return !found
 	})
 	return found
+}
+
+var (
+	funcMemoMu sync.Mutex
+	funcMemo   = map[*ast.FuncDecl]*flow.Func{}
+)
+
+// funcOf returns THE flow.Func of a declaration (one value per declaration, so that maps keyed by *flow.Func agree
+// across calls of reach / inlineSamePkg).
+func funcOf(pkg *packages.Package, fd *ast.FuncDecl) *flow.Func {
+	funcMemoMu.Lock()
+	defer funcMemoMu.Unlock()
+	if g := funcMemo[fd]; g != nil {
+		return g
+	}
+	g := flow.NewFunc(pkg, fd)
+	funcMemo[fd] = g
+	return g
 }
